@@ -112,6 +112,7 @@ func VerifC14_SkipDiamonds() {
 func VerifC14_FailuresWithRetries() {
 	vNativeReset()
 	s := newScenario(scenarioOpts{n: 2, maxRetries: 1, modes: true, outcomes: oSkip, buffer: true})
+	s.readd = vBool("readd") // the tasks are added once more after the edges were declared
 	s.build()
 	err := s.run()
 	vObserve("failed", err != nil)
